@@ -1,0 +1,30 @@
+//go:build verif
+
+package credentials
+
+// Contracts checked by /verif (contract-based deductive verification).
+// This file is comment-only; it is compiled only with -tags=verif.
+
+// ---- C58: security level check ----------------------------------------------------
+//
+// SpecLevelOK(ai, level): the connection described by ai satisfies `level` under
+// the API's documented rule: ai is not nil, and either it does not expose a
+// CommonAuthInfo, or its level is unset (InvalidSecurityLevel, backward
+// compatibility), or its level is at least `level`.
+// (Exported only inside the verification overlay so that other packages'
+// contracts can refer to it.)
+
+//@ spec func SpecHasLevel(ai AuthInfo) bool {
+//@   _, ok := ai.(interface{ GetCommonAuthInfo() CommonAuthInfo })
+//@   return ok
+//@ }
+//@ spec func SpecLevelOf(ai AuthInfo) SecurityLevel {
+//@   return ai.(interface{ GetCommonAuthInfo() CommonAuthInfo }).GetCommonAuthInfo().SecurityLevel
+//@ }
+//@ spec func SpecLevelOK(ai AuthInfo, level SecurityLevel) bool {
+//@   return ai != nil && (!SpecHasLevel(ai) || SpecLevelOf(ai) == InvalidSecurityLevel || SpecLevelOf(ai) >= level)
+//@ }
+
+//@ func CheckSecurityLevel
+//@   prop C58
+//@   ensures iff(result == nil, SpecLevelOK(ai, level))
